@@ -1,5 +1,5 @@
 (* C14 -- client integrations bind the callback to the session that started the flow.
-   Model/ClientState.v; `reach mode clears_old n ops` is the state after ANY list of redirects, callbacks and clock
+   Model/ClientState.v; `reach mode clears_old o1 n ops` is the state after ANY list of redirects, callbacks and clock
    advances by n user sessions.  Session storage satisfies the property; the cache storage AS IMPLEMENTED does not
    bind the state to a session: the full statement is refuted for it by a concrete history (the known finding), and
    the part that does hold is proved as ..._partial. *)
@@ -9,25 +9,25 @@ Import ListNotations.
 Open Scope string_scope.
 Open Scope list_scope.
 
-Definition reach (mode : smode) (clears_old : bool) (n : nat) (ops : list cop) : cst :=
-  crun_from mode clears_old 3600 (cinit n) ops.
+Definition reach (mode : smode) (clears_old : bool) (o1 : string -> bool) (n : nat) (ops : list cop) : cst :=
+  crun_from mode clears_old 3600 o1 (cinit n) ops.
 
-Lemma reach_inv mode clears_old n ops : Inv mode (reach mode clears_old n ops).
+Lemma reach_inv mode clears_old o1 n ops : Inv mode (reach mode clears_old o1 n ops).
 Proof. apply Inv_run, Inv_init. Qed.
 
 (* session storage: a callback is exchanged only for the state it names, of the provider it names, created by a
    redirect of the SAME session, with exactly the data that redirect stored (redirect_uri, PKCE, nonce), and the state
    is gone afterwards; anything else is a mismatch (the only other outcome of a callback) *)
 Theorem session_callback_bound_to_its_session :
-  forall clears_old n ops sess p state e s',
-  cstep SessionMode clears_old 3600 (reach SessionMode clears_old n ops) (CCallback sess p state) = (s', OExchanged e) ->
+  forall clears_old o1 n ops sess p state e s',
+  cstep SessionMode clears_old 3600 o1 (reach SessionMode clears_old o1 n ops) (CCallback sess p state) = (s', OExchanged e) ->
   exists st, state = Some st /\ e_prov e = p /\ e_state e = st /\
-    nth_error (rev (c_log (reach SessionMode clears_old n ops))) st = Some e /\
+    nth_error (rev (c_log (reach SessionMode clears_old o1 n ops))) st = Some e /\
     e_sess e = sess /\
     (forall x, stored s' x -> e_state x <> st).
 Proof.
-  intros clears_old n ops sess p state e s' H.
-  destruct (exchange_sound_l clears_old 3600 SessionMode _ _ _ _ _ _ (reach_inv _ _ _ _) H)
+  intros clears_old o1 n ops sess p state e s' H.
+  destruct (exchange_sound_l clears_old 3600 o1 SessionMode _ _ _ _ _ _ (reach_inv _ _ _ _ _) H)
     as [st [A [B [C [D [E [_ G]]]]]]].
   exists st. repeat split; auto.
 Qed.
@@ -35,15 +35,15 @@ Print Assumptions session_callback_bound_to_its_session.
 
 (* cache storage as implemented: everything except the session *)
 Theorem cache_callback_bound_to_its_state_partial :
-  forall clears_old n ops sess p state e s',
-  cstep CacheMode clears_old 3600 (reach CacheMode clears_old n ops) (CCallback sess p state) = (s', OExchanged e) ->
+  forall clears_old o1 n ops sess p state e s',
+  cstep CacheMode clears_old 3600 o1 (reach CacheMode clears_old o1 n ops) (CCallback sess p state) = (s', OExchanged e) ->
   exists st, state = Some st /\ e_prov e = p /\ e_state e = st /\
-    nth_error (rev (c_log (reach CacheMode clears_old n ops))) st = Some e /\
-    (c_now (reach CacheMode clears_old n ops) < e_exp e)%Z /\
+    nth_error (rev (c_log (reach CacheMode clears_old o1 n ops))) st = Some e /\
+    (c_now (reach CacheMode clears_old o1 n ops) < e_exp e)%Z /\
     (forall x, stored s' x -> e_state x <> st).
 Proof.
-  intros clears_old n ops sess p state e s' H.
-  destruct (exchange_sound_l clears_old 3600 CacheMode _ _ _ _ _ _ (reach_inv _ _ _ _) H)
+  intros clears_old o1 n ops sess p state e s' H.
+  destruct (exchange_sound_l clears_old 3600 o1 CacheMode _ _ _ _ _ _ (reach_inv _ _ _ _ _) H)
     as [st [A [B [C [D [_ [E G]]]]]]].
   exists st. repeat split; auto. apply E. reflexivity.
 Qed.
@@ -52,7 +52,7 @@ Print Assumptions cache_callback_bound_to_its_state_partial.
 (* ... and the missing part is false: session 1 presents the state that session 0's redirect created *)
 Theorem cache_callback_bound_to_its_session_refuted :
   exists ops sess p state e s',
-  cstep CacheMode false 3600 (reach CacheMode false 2 ops) (CCallback sess p state) = (s', OExchanged e) /\
+  cstep CacheMode false 3600 (fun _ => false) (reach CacheMode false (fun _ => false) 2 ops) (CCallback sess p state) = (s', OExchanged e) /\
   e_sess e <> sess.
 Proof.
   exists [CBegin 0 "oidc" false true (Some "https://rp.example/cb")], 1, "oidc", (Some 0).
@@ -62,20 +62,20 @@ Print Assumptions cache_callback_bound_to_its_session_refuted.
 
 (* in both storages a state is exchanged at most once, whatever happens in between *)
 Theorem state_exchanged_at_most_once :
-  forall mode clears_old n ops0 sess p state e s',
-  cstep mode clears_old 3600 (reach mode clears_old n ops0) (CCallback sess p state) = (s', OExchanged e) ->
+  forall mode clears_old o1 n ops0 sess p state e s',
+  cstep mode clears_old 3600 o1 (reach mode clears_old o1 n ops0) (CCallback sess p state) = (s', OExchanged e) ->
   forall ops sess2 p2 state2 s3 e2,
-    cstep mode clears_old 3600 (crun_from mode clears_old 3600 s' ops) (CCallback sess2 p2 state2) = (s3, OExchanged e2) ->
+    cstep mode clears_old 3600 o1 (crun_from mode clears_old 3600 o1 s' ops) (CCallback sess2 p2 state2) = (s3, OExchanged e2) ->
     e_state e2 <> e_state e.
 Proof. intros. eapply exchanged_never_again_l; eauto. apply reach_inv. Qed.
 Print Assumptions state_exchanged_at_most_once.
 
 (* a callback has exactly two outcomes; the mismatch outcome involves no exchange *)
 Theorem callback_outcomes :
-  forall mode clears_old s sess p state,
-  (exists e, snd (cstep mode clears_old 3600 s (CCallback sess p state)) = OExchanged e) \/
-  snd (cstep mode clears_old 3600 s (CCallback sess p state)) = OMismatch \/
-  snd (cstep mode clears_old 3600 s (CCallback sess p state)) = ONone.
+  forall mode clears_old o1 s sess p state,
+  (exists e, snd (cstep mode clears_old 3600 o1 s (CCallback sess p state)) = OExchanged e) \/
+  snd (cstep mode clears_old 3600 o1 s (CCallback sess p state)) = OMismatch \/
+  snd (cstep mode clears_old 3600 o1 s (CCallback sess p state)) = ONone.
 Proof.
   intros. unfold cstep. destruct mode; [destruct (nth_error (c_sessions s) sess)|]; cbn; auto;
     repeat match goal with |- context [match ?x with _ => _ end] => destruct x end; cbn; eauto.
@@ -84,11 +84,30 @@ Print Assumptions callback_outcomes.
 
 (* non-vacuity: interleaved flows in two sessions, each callback gets its own data *)
 Example interleaved_flows :
-  crun_outs SessionMode false 3600 (cinit 2)
+  crun_outs SessionMode false 3600 (fun _ => false) (cinit 2)
     [CBegin 0 "both" true true (Some "A"); CBegin 1 "both" true true (Some "B"); CCallback 1 "both" (Some 0);
      CCallback 1 "both" (Some 1); CCallback 0 "both" (Some 0); CCallback 0 "both" (Some 0)]
   = [OBegan 0; OBegan 1; OMismatch;
      OExchanged {| e_prov := "both"; e_state := 1; e_pkce := true; e_openid := true; e_redirect := Some "B"; e_exp := 3600; e_sess := 1 |};
      OExchanged {| e_prov := "both"; e_state := 0; e_pkce := true; e_openid := true; e_redirect := Some "A"; e_exp := 3600; e_sess := 0 |};
      OMismatch].
+Proof. vm_compute. reflexivity. Qed.
+
+(* the two protocols differ in WHEN the stored data is cleared: an OAuth 2 callback clears the named state and the
+   expired entries before it looks at what it found, an OAuth 1 callback only after it found its request token.  A
+   callback naming an unknown state is a mismatch either way; what it leaves behind differs, and the model keeps
+   the difference (the same history, once with an OAuth 1 and once with an OAuth 2 provider) *)
+Example unknown_state_then_late_callback_oauth1 :
+  crun_outs SessionMode false 3600 (fun p => String.eqb p "legacy") (cinit 1)
+    [CBegin 0 "legacy" false false (Some "A"); CTick 4000; CCallback 0 "legacy" (Some 7); CCallback 0 "legacy" (Some 0);
+     CCallback 0 "legacy" (Some 0)]
+  = [OBegan 0; ONone; OMismatch;
+     OExchanged {| e_prov := "legacy"; e_state := 0; e_pkce := false; e_openid := false; e_redirect := Some "A"; e_exp := 3600; e_sess := 0 |};
+     OMismatch].
+Proof. vm_compute. reflexivity. Qed.
+
+Example unknown_state_then_late_callback_oauth2 :
+  crun_outs SessionMode false 3600 (fun p => String.eqb p "legacy") (cinit 1)
+    [CBegin 0 "oidc" true true (Some "A"); CTick 4000; CCallback 0 "oidc" (Some 7); CCallback 0 "oidc" (Some 0)]
+  = [OBegan 0; ONone; OMismatch; OMismatch].
 Proof. vm_compute. reflexivity. Qed.
